@@ -148,9 +148,10 @@ def run_property(prop, monitor, tier, seed, programs, bounds_q, bounds_t, rule, 
     model_checks(r)
     q = tier == 'quick'
     two_thread = [name for name, prog in programs if len(prog['threads']) == 2 and name != 'large-frame-vs-small']
-    results = explore_all(r, programs, bounds_q if q else bounds_t, random_runs=0 if q else 6000, opcode_random=not q,
-                          opcode_bound1=two_thread[:2] if q else two_thread)
-    r.cov['opcode_granular_single_preemption'] = two_thread[:2] if q else two_thread
+    # (opcode-granular exploration is ten times slower than line-granular: the thorough tier does it for four programs)
+    results = explore_all(r, programs, bounds_q if q else bounds_t, random_runs=0 if q else 3000, opcode_random=not q,
+                          opcode_bound1=two_thread[:2] if q else two_thread[:4])
+    r.cov['opcode_granular_single_preemption'] = two_thread[:2] if q else two_thread[:4]
     stalled = [x for x in results if any(rec.get('k') == 'stall' for rec in x[2])]
     results = [x for x in results if not any(rec.get('k') == 'stall' for rec in x[2])]
     r.cov['scheduler_stalls_discarded'] = len(stalled)
